@@ -791,7 +791,13 @@ func exec(op string) string {
 			rs.log = nil
 			n := make(enc.Name, len(name), len(name)+extra)
 			copy(n, name)
-			ret, err := c.Produce(object.ProduceArgs{Name: n, Content: splitWire(append([]byte(nil), content...), a["split"]), Version: ver})
+			pa := object.ProduceArgs{Name: n, Content: splitWire(append([]byte(nil), content...), a["split"]), Version: ver}
+			if a["exp"] != "" {
+				// the publisher announces an expiry for THIS version; whatever is done with it, it says
+				// nothing about other versions of the object or about objects named below it
+				pa.Expiry = time.Now().Add(time.Duration(common.Atoi(a["exp"])) * time.Millisecond)
+			}
+			ret, err := c.Produce(pa)
 			r := "err"
 			if err == nil {
 				r = common.NameText(ret)
@@ -938,6 +944,9 @@ func exec(op string) string {
 		name := common.ParseNameText(a["name"])
 		pfx := a["pfx"] == "1"
 		return "mem=" + errStr(h.mem.Remove(name, pfx)) + " bolt=" + errStr(h.bolt.Remove(name, pfx))
+	case "wait":
+		time.Sleep(time.Duration(common.Atoi(a["ms"])) * time.Millisecond)
+		return "ok"
 	case "cput":
 		// the consuming node publishes a version of the object itself: it lands in ITS OWN store
 		name := common.ParseNameText(a["name"])
